@@ -414,6 +414,72 @@ fn walks_with_vanishing_dirs(
     runs
 }
 
+/// Contents beyond the small alphabets: a 300 001 byte file read with buffers larger than 64 KiB, and
+/// texts whose multi-byte characters straddle the 8 KiB / 16 KiB marks, through `read_to_string`.
+fn async_big_contents(vio: &mut Vec<Violation>) -> u64 {
+    use async_std::io::prelude::{ReadExt as _, SeekExt as _};
+    let mut n = 0u64;
+    let ov = Cfg::Ov(vec![Cfg::Mem, Cfg::Mem]);
+    for (cfg, base) in [(Cfg::Mem, 0usize), (Cfg::alt(Cfg::Mem, "/Z"), 0), (ov.clone(), 1), (Cfg::Phys, 0)] {
+        let mk = |tail: &str, what: String| Violation {
+            property: "C15".into(),
+            signature: format!("async {}|big-contents|{}", cfg.label(), tail),
+            summary: format!("async {}: {}", cfg.label(), what),
+            replay: json!({"engine": "async-big-contents", "configuration": cfg.label(), "case": tail}),
+        };
+        // (a) bytes
+        let content = crate::handle::pattern(300_001);
+        let ab = abuild(&cfg, Order::Asc, &[(base, vec![("/f".to_string(), Node::File(content.clone()))])]);
+        let f = ab.root.join("f").unwrap();
+        n += 1;
+        match guard(|| ABlock(f.clone()).read_all()) {
+            Ok(Ok(g)) if g == content => {}
+            other => vio.push(mk("read_to_end", format!("read_to_end of a 300001 byte file returned {:?}", other.map(|r| r.map(|g| g.len()).map_err(|e| e.display))))),
+        }
+        for bs in [65_537usize, 100_000, 300_001, 400_000] {
+            n += 1;
+            let r = guard(|| {
+                block_on(async {
+                    let mut h = f.open_file().await.map_err(|e| e.to_string())?;
+                    let mut out = vec![];
+                    let mut buf = vec![0u8; bs];
+                    loop {
+                        let k = h.read(&mut buf).await.map_err(|e| e.to_string())?;
+                        if k == 0 {
+                            break;
+                        }
+                        out.extend_from_slice(&buf[..k]);
+                        let pos = h.seek(std::io::SeekFrom::Current(0)).await.map_err(|e| e.to_string())?;
+                        if pos != out.len() as u64 {
+                            return Err(format!("after delivering {} bytes the position is {}", out.len(), pos));
+                        }
+                    }
+                    Ok::<Vec<u8>, String>(out)
+                })
+            });
+            match r {
+                Ok(Ok(g)) if g == content => {}
+                other => vio.push(mk("reads-with-a-large-buffer", format!("reading with a {} byte buffer: {:?}", bs, other.map(|r| r.map(|g| g.len()))))),
+            }
+        }
+        // (b) texts
+        for at in [8189usize, 8190, 8191, 8192, 16381, 16383] {
+            for ch in ['é', '€', '😀'] {
+                let mut text = "a".repeat(at);
+                text.push(ch);
+                text.push_str(&"b".repeat(9000));
+                let ab = abuild(&cfg, Order::Asc, &[(base, vec![("/t".to_string(), Node::File(text.clone().into_bytes()))])]);
+                n += 1;
+                match guard(|| ABlock(ab.root.join("t").unwrap()).read_to_string()) {
+                    Ok(Ok(g)) if g == text => {}
+                    other => vio.push(mk("read_to_string", format!("a {} byte character at offset {}: read_to_string returned {:?}", ch.len_utf8(), at, other.map(|r| r.map(|g| g.len()).map_err(|e| e.display))))),
+                }
+            }
+        }
+    }
+    n
+}
+
 /// Hostile directory contents (symlinks of every kind, created behind the backend's back): the
 /// physical backends of both worlds must answer every call with the same outcome class.
 fn hostile_disk_pairs(vio: &mut Vec<Violation>) -> u64 {
@@ -843,6 +909,9 @@ pub fn run_c15(ctx: &Ctx) -> i32 {
     let vr2 = walks_with_vanishing_dirs(&Cfg::alt(Cfg::Mem, "/Z"), &small, 0, false, &mut vio);
     let vr3 = walks_with_vanishing_dirs(&ov, &small, 1, thorough, &mut vio);
     quiet.say(&format!("  [walks with a directory vanishing at every walker position, sync vs async (+1 Pending at every await point)] runs={}", vr1 + vr2 + vr3));
+    // (h) contents beyond the small alphabets
+    let bc = async_big_contents(&mut vio);
+    quiet.say(&format!("  [300001 byte file with read buffers > 64 KiB; multi-byte characters across the 8 / 16 KiB marks through read_to_string] cases={} violations so far={}", bc, vio.len()));
     // (g) symlinks of every kind on disk: same outcome classes from both physical backends
     let hd = hostile_disk_pairs(&mut vio);
     quiet.say(&format!("  [symlinks on disk x 13 calls x 2 targets, sync vs async physical backend] runs={} violations so far={}", hd, vio.len()));
